@@ -428,6 +428,8 @@ fn run_block_on(c: &SchedCase) -> ExecOutcome {
             if !stop_instead && !cfg!(miri) {
                 std::thread::sleep(Duration::from_millis(80));
                 if !ret.load(Ordering::SeqCst) {
+                    let mark = hookrec::record(H_QUIESCE, 2, 0);
+                    let _ = mark;
                     let parked = loop_parked_quick(loop_tid);
                     hookrec::record(H_QUIESCE, parked as u64, 0);
                 }
@@ -516,7 +518,10 @@ fn run_block_on(c: &SchedCase) -> ExecOutcome {
         let parked_before_extra = recs.iter().any(|r| is_h(r, H_QUIESCE) && r.a == 1);
         for wb in recs.iter().filter(|r| is_h(r, H_WAKE_BEGIN) && (r.b >> 16) != 99) {
             let Some(we) = recs.iter().find(|r| is_h(r, H_WAKE_END) && r.b == wb.b) else { continue };
-            let polled_after = recs.iter().any(|r| is_h(r, H_POLL) && r.seq > wb.seq && (r.seq < first_extra || !parked_before_extra));
+            // the stricter window only applies to wakes that had returned before the harness sampled the loop's state
+            let sampled_at = recs.iter().find(|r| is_h(r, H_QUIESCE)).map(|r| r.seq).unwrap_or(0);
+            let strict = parked_before_extra && we.seq < sampled_at;
+            let polled_after = recs.iter().any(|r| is_h(r, H_POLL) && r.seq > wb.seq && (r.seq < first_extra || !strict));
             let finished = ready.map(|r| r.seq < we.seq).unwrap_or(false);
             let stopped = stop_begin.is_some();
             if !polled_after && !finished && !stopped {
